@@ -552,6 +552,17 @@ def run_real(mod, rng, controlled=True, force=None):
 
     def call():
         return asyncio.run(top(*mod["args"])) if is_async else top(*mod["args"])
+    nparams = len(mod["defs"][-1]["params"])
+    if controlled and nparams and rng.random() < 0.2:
+        # the DAG has a past: an executor of it was run with OTHER arguments (explicit values for every parameter,
+        # defaulted ones included); whatever that run did, the observed call must return what the plain function returns
+        pre_args = [rng.choice([0, 1, 5, -3, True, None, "q", (9, 8), [4, 4, 4], {"a": 2, "b": 0, "n": [0, 1]}]) for _ in range(nparams)]
+
+        def prelude():
+            ex = top.executor()
+            return asyncio.run(ex(*pre_args)) if is_async else ex(*pre_args)
+        control.run_controlled(prelude, control.Script(rng=random.Random(rng.randrange(1 << 30))), timeout=40)
+        info["prelude_executor_args"] = repr(pre_args)
     if controlled:
         R, outcome = control.run_controlled(call, control.Script(rng=random.Random(rng.randrange(1 << 30))), timeout=40)
         info["dispatches"] = sum(1 for e in R.log if e[1] == "dispatch")
